@@ -66,6 +66,7 @@ inductive Obs where
   | dec (prog : String) (runs : List (Nat × String))
   | tra (prog : String) (runs : List (Nat × Option (Nat × Int)))
   | dt (ret : String) (lines : List String)
+  | dta (entries : List String)
   | ce (text : String)
   | crash (text : String)
   | loadFail
@@ -295,6 +296,25 @@ def judgeDts : List Expect → List (List String) → List String
   | e :: es, d :: ds => judgeDtLines e.kind e.trace d ++ judgeDts es ds
   | es, ds => [s!"dt-count missing={es.length} extra={ds.length}"]
 
+/-- J7, lines that follow a frame line when arguments and local variables are printed (`dta`: per frame `F`, then `A` for
+    an "arguments:" line, `L` for a "local variables:" line): a `(catch)` frame has no arguments of its own — anything
+    printed there are stack slots of ANOTHER frame — and a named function always gets its "arguments:" line -/
+def judgeDta (lines : List String) (entries : List String) : List String :=
+  if lines.length ≠ entries.length then [s!"dta-length frames={lines.length} entries={entries.length}"] else
+  let rec go (i : Nat) (ls es : List String) : List String :=
+    match ls, es with
+    | l :: ls', e :: es' =>
+      let head := (l.splitOn "~at~").headD ""
+      (if head == "(catch)" && e != "F" then [s!"dta-catch-args i={i} got={e}"] else []) ++
+      (if head.endsWith "()" && !e.startsWith "FA" then [s!"dta-no-args i={i} fn={head} got={e}"] else []) ++
+      go (i + 1) ls' es'
+    | _, _ => []
+  (go 0 lines entries).take 2
+
+def judgeDtas : List (List String) → List (List String) → List String
+  | d :: ds, e :: es => judgeDta d e ++ judgeDtas ds es
+  | _, _ => []
+
 /-! ## J8: compile-time diagnostics -/
 
 /-- the generator's record of a diagnostic it provoked: file, line, first words of the text (blanks as `_`) -/
@@ -381,6 +401,7 @@ def judgeEv (exps : List Expect) (obs : List Obs) (ces : List ExpectCe := []) : 
     else judgeEhs exps (ehsOf obs) ++ judgeObs obs [] [] ++
       -- J7 only where the log text was captured (one `dt` per reported error)
       (if (dtsOf obs).isEmpty then [] else judgeDts exps (dtsOf obs)) ++
+      judgeDtas (dtsOf obs) (obs.filterMap fun | .dta es => some es | _ => none) ++
       judgeCes ces (obs.filterMap fun | .ce t => some t | _ => none)
 
 end NV.C18
